@@ -31,6 +31,7 @@ mod real;
 mod treespec;
 mod model;
 mod pathgen;
+mod plumbing;
 mod report;
 mod rng;
 mod subtree;
@@ -73,6 +74,7 @@ fn main() {
             c12::run_pure(&tier, seed, &mut report);
             subtree::run_c12(&tier, seed, &mut report);
             filtered::run("C12", filtered::Mode::Subtree, &tier, &mut report);
+            plumbing::c12_subtree_restore_when_mkdir_fails(&mut report);
         }
         "C01" => {
             report = Report::new("C01", "generated source trees (names around '/', multi-byte, sizes around the small-file cap and block size, all modes, pre/post-epoch mtimes, owners) x option triples; each backed up into a fresh archive and restored; non-trivial = more than the root entry; distinct by canonical case text");
@@ -82,6 +84,7 @@ fn main() {
         "C02" => {
             report = Report::new("C02", "generated histories over {replace tree by a mutated one (add/modify/touch/chmod/chown/remove/rename/file<->dir), backup(options), backup interrupted at a random mutating micro-step, resume, delete(subset), gc}; after every step each surviving complete version and 'latest complete' is restored and compared with the snapshot taken when it was made; non-trivial = more than one backup step; distinct by canonical history text");
             c02::run(&tier, seed, &mut report);
+            plumbing::c02_latest_complete_under_stat_fault(&mut report);
         }
         "C03" => {
             report = Report::new("C03", "scenarios (history prefix, changed tree, options) x EVERY mutating micro-step k of the backup's storage trace (before each operation, and after a write created its file empty); each crash state is checked by the property's oracles, compared with the model's prefix state, and (sampled in quick, all in thorough) resumed by a full backup; all cases non-trivial; distinct by scenario seed and k");
@@ -106,6 +109,7 @@ fn main() {
         "C17" => {
             report = Report::new("C17", "generated histories (as C02) each replayed into 4 (thorough 6) fresh archives: plain; every list_dir result shuffled by the interceptor; source created in another order under multi-thread runtimes with 1/4/16 workers; archives compared byte for byte after every step (start_time/end_time masked) and with the model; non-trivial = history with more than one backup; distinct by seed");
             c17::run(&tier, seed, &mut report);
+            plumbing::c17_delete_two_faults(&mut report);
         }
         "C07" => {
             report = Report::new("C07", "a direct CreateNew test on the transport; histories (as C02, incl. interrupted and resumed backups) with byte-for-byte snapshots of the archive before/after every step; and two backups of differing sources racing on one archive under schedules (A runs i ops, B runs j, A runs k, for i,j<=10, plus random schedules); non-trivial = history with more than one backup / schedule in which both actors move; distinct by seed and schedule");
@@ -114,6 +118,7 @@ fn main() {
         "C08" => {
             report = Report::new("C08", "archives written directly in the documented format by the harness's own encoder: every arrangement of {absent, incomplete, complete} versions over small path pools with every subset of entries cut into hunks in every way (2 and 3 versions), plus random layouts of up to 8 versions in every state (no directory, directory only, empty/junk/missing head, no index directory, open, closed, tail without readable head, unreadable tail) with empty hunks and deleted/junk/zero-length hunk files; each version listed unfiltered and with subtrees and exclusions; non-trivial = the rule's chain visits at least two versions; distinct by canonical text of layout and query");
             c08::run(&tier, seed, &mut report);
+            plumbing::c08_stray_file_in_gap(&mut report);
         }
         "C09" => {
             report = Report::new("C09", "healthy side: final states of generated histories (completed and interrupted backups, deletes, gc) validated full and quick; damage side: EVERY file of scenario archives x {delete, truncate 0, truncate half, garbage} plus sampled bit flips, each followed by restore of every version and full+quick validation; all cases non-trivial; distinct by seed, file and damage");
@@ -138,6 +143,7 @@ fn main() {
         "C14" => {
             report = Report::new("C14", "generated histories containing backups of unchanged trees with other options, interrupted backups followed by a resume, deletes/gc; block writes are tracked over the whole history; non-trivial = more than three steps; distinct by seed");
             c14::run(&tier, seed, &mut report);
+            plumbing::c14_basis_under_stat_fault(&mut report);
         }
         "C15" => {
             report = Report::new("C15", "(pattern set, apath) pairs: 1-3 exclusion patterns built from anchored/unanchored names, *, ?, ** in every position, classes, escapes, non-ASCII names, plus malformed patterns; apaths to depth 4 over a component alphabet; and (single glob, arbitrary string) pairs; non-trivial = the real code answers true; distinct by canonical text of the case");
@@ -153,6 +159,7 @@ fn main() {
             report = Report::new("C18", "generated trees (files, dirs, symlinks, owners, modes, mtimes) backed up by the real code, then mutated by a generated mutation list; one evaluation per (tree, mutation list, include_unchanged) diff, per entry pair (diffmeta) and per second-backup event list; non-trivial = at least one mutation applied; distinct by canonical text of tree+mutations");
             c18::run(&tier, seed, &mut report);
             filtered::run("C18", filtered::Mode::Diff, &tier, &mut report);
+            plumbing::c18_diff_under_read_fault(&mut report);
         }
         "BLAKE" => {
             report = Report::new("BLAKE", "BLAKE2b-512 of the Lean model vs blake2-rfc on lengths 0..=300 and block boundaries");
